@@ -165,30 +165,81 @@ def run(ctx):
         ctx.arg_origin('b', lf_, IMF + '::list_all_in_dir', 0, require=['p#1'], desc='(dir) <- dirpath')
         # files beyond the beacon decide nothing: the beacon-exists test and the returned list both look at the FILTERED listing
         # (added after seed C12-4: the test was made on the raw listing, so a missing beacon trio went unnoticed whenever later files existed)
-        from engine import loop_info, return_assigns, ok_payload
-        FILT = ('call:*Iterator>::filter', 'call:*Iterator::filter', 'call:*::retain', 'call:*::take_while', 'call:*::filter_map', 'call:*::partition',
-                'call:*::split_off', 'call:*::truncate', 'call:*::range', 'call:*::drain', 'call:*::extract_if', 'call:*::skip_while', 'call:*::position',
-                'call:*::partition_point', 'call:*::binary_search*', 'call:*::rposition', 'call:*::rfind', 'call:*::find')
+        from engine import loop_info
+        FILT = ('*Iterator>::filter', '*Iterator::filter', '*::retain', '*::take_while', '*::filter_map', '*::partition', '*::split_off', '*::truncate',
+                '*::range', '*::drain', '*::extract_if', '*::skip_while', '*::partition_point', '*::binary_search*')
+        PASS = ('*Try>::branch', '*::into_iter', '*::iter', '*::deref', '*::as_slice', '*::as_ref', '*::borrow', '*::clone', '*::map_err', '*::with_context',
+                '*::context', '*::to_vec', '*::to_owned', '*Iterator>::next', '*::rev', '*::by_ref', '*::peekable', '*::copied', '*::cloned', '*::unwrap*',
+                '*::expect', '*::sort*', '*::collect', '*Iterator>::map', '*::enumerate', '*::inspect', '*::into', '*::from',
+                '*::deref_mut', '*::as_mut_slice', '*::iter_mut', '*::as_mut')
         body = lf_.body
-        gs = [g for g in find_guards(body) if between(['call:*::list_all_in_dir'], ['p#2'])(g)]
-        loop_filter = [g for g in gs if loop_info(body, g.bb)]
-
-        def filtered(og):
-            return any(has(og, p_) for p_ in FILT) or (bool(loop_filter) and (has(og, 'call:*::push') or has(og, 'call:*::insert') or has(og, 'call:*::extend')))
-        tests = [g for g in gs if not loop_info(body, g.bb)]
-        raw_tests = [g.line for g in tests if not filtered(g.a_orig | g.b_orig)]
-        rets = []
-        for sp in return_assigns(body, 'ok')[0]:
-            x = ok_payload(body, sp)
-            if x is not None:
-                rets.append(fn_origins(lf_, x, True))
-        raw_rets = [1 for og in rets if has(og, 'call:*::list_all_in_dir') and not filtered(og)]
-        inst = 'list_immutable_files_to_process: the beacon-exists test and the returned files are taken from the listing filtered by the beacon'
-        if (tests or loop_filter) and rets and not raw_tests and not raw_rets:
-            R.ok('b', 'R7', inst, '%d test(s), %d returned list(s)' % (len(tests), len(rets)), lf_.loc())
+        srcs = [c for c in body.calls() if any(glob_match('*::list_all_in_dir', n) for n in c.names())]
+        tainted = {c.dest[0] for c in srcs}
+        raw = []          # (what, line)
+        filters = 0
+        changed = True
+        seen_calls = set()
+        while changed:
+            changed = False
+            for bi, b in enumerate(body.blocks):
+                if b.cleanup:
+                    continue
+                for (ln, pl, rv) in b.stmts:
+                    reads = [l for l, _ in rvalue_reads(rv)]
+                    if not any(l in tainted for l in reads):
+                        continue
+                    if rv[0] == 'bin' and rv[1] in ('Lt', 'Le', 'Gt', 'Ge', 'Eq', 'Ne'):
+                        other = [o for o in (rv[2], rv[3]) if not (o[0] in ('copy', 'move') and o[1][0] in tainted)]
+                        in_loop = bool(loop_info(body, bi))
+                        if in_loop and any(has(fn_origins(lf_, o, True), 'p#2') for o in other):
+                            continue        # the loop form of the filter itself
+                        if ('cmp', ln) not in seen_calls:
+                            seen_calls.add(('cmp', ln))
+                            raw.append(('a comparison', ln))
+                        continue
+                    if pl[0] == 0:
+                        if ('ret', ln) not in seen_calls:
+                            seen_calls.add(('ret', ln))
+                            raw.append(('the returned value', ln))
+                        continue
+                    if pl[0] not in tainted:
+                        tainted.add(pl[0])
+                        changed = True
+                t = b.term
+                if t[0] != 'call':
+                    continue
+                c = t[1]
+                if not any(a_[0] in ('copy', 'move') and a_[1][0] in tainted for a_ in c.args):
+                    continue
+                names = c.names()
+                if any(glob_match(q, n) for q in FILT for n in names):
+                    if id(c) not in seen_calls:
+                        seen_calls.add(id(c))
+                        filters += 1
+                    continue
+                in_loop_push = any(glob_match(q, n) for q in ('*::push', '*::insert', '*::extend', '*::push_back') for n in names) and loop_info(body, c.bb) and \
+                    any(has(g_.a_orig | g_.b_orig, 'p#2') for g_ in find_guards(body) if loop_info(body, g_.bb))
+                if in_loop_push:
+                    if id(c) not in seen_calls:
+                        seen_calls.add(id(c))
+                        filters += 1
+                    continue
+                if any(glob_match('*FromResidual*::from_residual', n) for n in names):
+                    continue        # the error arm of `?` carries the error, not the listing
+                if any(glob_match(q, n) for q in PASS for n in names):
+                    if c.dest[0] not in tainted:
+                        tainted.add(c.dest[0])
+                        changed = True
+                    continue
+                if id(c) not in seen_calls:
+                    seen_calls.add(id(c))
+                    raw.append((fn_short(c.best()), c.line))
+        inst = 'list_immutable_files_to_process: the listing is consumed only through the beacon filter (files beyond the beacon decide nothing)'
+        if srcs and filters and not raw:
+            R.ok('b', 'R7', inst, '%d listing call(s), %d filter site(s)' % (len(srcs), filters), lf_.loc())
         else:
-            R.violation('b', 'R7', inst, 'list:beyond-beacon', 'comparisons of the listing with the beacon: %d (on the unfiltered listing: lines %s); returned lists %d (unfiltered: %d): '
-                        'files beyond the beacon change the outcome' % (len(gs), raw_tests, len(rets), len(raw_rets)), lf_.loc())
+            R.violation('b', 'R7', inst, 'list:beyond-beacon', 'listing calls %d, beacon filters reached %d, uses of the UNFILTERED listing: %s - the outcome then depends on files '
+                        'beyond the beacon' % (len(srcs), filters, ['%s (line %s)' % r_ for r_ in raw][:4]), lf_.loc())
 
 
     # the listing looks at the direct children of the immutable directory only
